@@ -14,8 +14,8 @@ for f in sorted(glob.glob(os.path.join(root, "evidence", "C*.json"))):
     pid = ev["property_id"]
     st = ev["coverage"]["states"]; w = ev["wall_s"]; nc = len(ev["coverage"].get("configs", [])) + len(ev["coverage"].get("sanitized_configs", []))
     # row starts with "| C01 |" and ends with "| <states> / <wall> s |"
-    s, n = re.subn(r"(^\| %s \|.*\| )[^|]*?/ [^|]*? s( \|)$" % pid, lambda m: m.group(1) + f"{sci(st)} / {w:.0f} s ({nc} cfgs)" + m.group(2), s, flags=re.M)
-    if n != 1:
+    s, n = re.subn(r"(^\| %s \|.*\| )[^|]*( \|)$" % pid, lambda m: m.group(1) + f"{sci(st)} / {w:.0f} s ({nc} cfgs)" + m.group(2), s, flags=re.M)
+    if n not in (1, 2):      # the thorough table of section 8 has a row with the same id; it is regenerated below
         print("row not found for", pid)
 rows = []
 for f in sorted(glob.glob(os.path.join(root, "evidence", "thorough", "C*.json"))):
